@@ -397,11 +397,14 @@ fn normalize(p: &Program, names: Option<&Program>) -> Program {
                 }
             };
         }
-        // The writer disambiguates ADT, trait, associated type and opaque type
-        // names; fn-def names are printed as they are and stay literal.
+        // The writer disambiguates ADT, trait, associated type, opaque type and
+        // fn-def names that clash (`X`, `X_1`, ...): programs are compared up to a
+        // renaming of items that `check_name_bijection` shows to be one-to-one
+        // inside each namespace.
         rename!(adt_ids, adt_kinds);
         rename!(trait_ids, trait_kinds);
         rename!(opaque_ty_ids, opaque_ty_kinds);
+        rename!(fn_def_ids, fn_def_kinds);
     }
     q
 }
